@@ -11,7 +11,11 @@ Emits `lean/GPVerif/Gen/MVN.lean` (namespace `GenMVN`) with, regenerated from th
 (d) `__mul__`, `__truediv__`, `__add__`, `__radd__` (mean / covariance formulas; any other statement — e.g. copying a
     cached factor — is out of vocabulary), the `variance` clamp, `confidence_region`, `expand` / `unsqueeze` shape and
     dimension arithmetic, `add_jitter`;
-(e) `rsample(base_samples)` / `get_base_samples`: view shapes, the two `permute` argument lists, `root @ eps + loc`.
+(e) `rsample(base_samples)` / `get_base_samples`: view shapes, the two axis moves (any chain of `permute` / `transpose`
+    calls, folded into the one equivalent permutation), `root @ eps + loc`;
+(f) `__init__`, LinearOperator branch: `batch_shape = torch.broadcast_shapes(...)`, `event_shape`, each conditional
+    `expand` of `mean` / `covariance_matrix` (condition: shape comparison or comparison of `len(...)`s; target shape), what
+    is stored as `self.loc` / `self._covar`, the batch shape handed to `Distribution.__init__`.
 
 Vocabulary (anything else raises `TranslateError` = broken tie):
   scalar expressions   int/float constants (as exact decimals), names, `+ - * /`, `** <int>`, unary `-`, `sum([...])`,
